@@ -204,4 +204,182 @@ example : budgetOk 1 false (startComment [45, 45, 104, 105] ++
     shiftOps (commentShift [45, 45, 104, 105]) [.token [120] (some 1) true, .token [121] (some 3) true]) = true := by
   decide
 
+
+/-! ### `Block::remove_statement`: the comments of a removed statement -/
+
+/-- When the next statement's first token has no leading trivia of its own, the loop of
+`remove_statement` produces the comments in order with the re-created gaps between them. -/
+theorem reattach_inorder (cs : List RTrivia) : reattach cs [] = interleave none cs := by
+  have := reattachLoop_inorder cs [] 0 0 none (by simp)
+  simpa [reattach] using this
+
+/-- Full-strength statement about the ORDER: the comments of the removed statement come, in
+order, before the leading trivia the next token already had. -/
+def reattach_inorder_full : Prop :=
+  ∀ (cs own : List RTrivia), reattach cs own = interleave none cs ++ own
+
+/-- False of the code as it is (finding F34): `offset += gap`. Witness: comments on lines 2 and
+4 (gap 2) and on line 7, next statement with its own comment. -/
+theorem reattach_inorder_full_false : ¬ reattach_inorder_full := by
+  intro h
+  have := h [⟨true, [45, 45, 97], some 2⟩, ⟨true, [45, 45, 98], some 4⟩, ⟨true, [45, 45, 116], some 7⟩]
+    [⟨true, [45, 45, 111], some 8⟩, ⟨false, [10], some 8⟩]
+  exact absurd this (by decide)
+
+/-- Partial theorem: when no two consecutive comments of the removed statement are two or more
+lines apart the order is kept, whatever the next token's own trivia. -/
+theorem reattach_inorder_small_gaps (cs own : List RTrivia) (h : smallGaps none cs = true) :
+    reattach cs own = interleave none cs ++ own := by
+  have := reattachLoop_small_gaps cs [] own 0 0 none (by simp) h
+  simpa [reattach] using this
+
+example : smallGaps none [⟨true, [45, 45, 97], some 2⟩, ⟨true, [45, 45, 98], some 3⟩,
+    ⟨true, [45, 45, 116], some 4⟩] = true := by decide
+
+/-- Whatever the insertion positions (the index overshoots after a gap of two or more), the
+newlines of the resulting leading trivia are those of the old trivia, those inside the kept
+comments, and one per line between the STARTING lines of consecutive comments. -/
+theorem reattach_newlines (cs own : List RTrivia) :
+    nlAll (reattach cs own) = nlAll own + nlAll cs + gapSum none cs := by
+  simpa [reattach] using nlAll_reattachLoop cs own 0 0 none
+
+/-- The invariant of the walk over the re-attached comments. -/
+def walkInv (cur : Nat) (p : Bool) (prev : Option Nat) (lo : Nat) : Prop :=
+  match prev with
+  | none => (if p then cur + 1 else cur) ≤ lo
+  | some lp => cur ≤ lp ∧ lo = lp + (if p then 1 else 0)
+
+theorem interleave_budget (cs : List RTrivia) : ∀ (cur : Nat) (p : Bool) (prev : Option Nat)
+    (lo : Nat) (tail : List Op), walkInv cur p prev lo → attached lo cs = true → singleLine cs = true →
+    ∃ cur' p', budgetOk cur p (trivOps (interleave prev cs) ++ tail) = budgetOk cur' p' tail ∧
+      (if p' then cur' + 1 else cur') ≤ endOf lo cs := by
+  induction cs with
+  | nil =>
+    intro cur p prev lo tail hinv _ _
+    refine ⟨cur, p, by simp [interleave, trivOps], ?_⟩
+    cases prev with
+    | none => simpa [walkInv, endOf] using hinv
+    | some lp =>
+      simp only [walkInv] at hinv
+      simp only [endOf]
+      cases p <;> simp_all <;> omega
+  | cons t rest ih =>
+    intro cur p prev lo tail hinv hatt hsl
+    simp only [attached, Bool.and_eq_true] at hatt
+    obtain ⟨hc, hatt⟩ := hatt
+    cases hl : t.line with
+    | none => simp [hl] at hatt
+    | some l =>
+      simp only [hl, Bool.and_eq_true, decide_eq_true_eq] at hatt
+      obtain ⟨hlo, hrest⟩ := hatt
+      simp only [singleLine, Bool.and_eq_true, beq_iff_eq] at hsl
+      obtain ⟨hnl, hslr⟩ := hsl
+      have hnext : endOf lo (t :: rest) =
+          endOf (l + countNewLines t.text + (if isSingleLineComment t.text then 1 else 0)) rest := by
+        simp [endOf, hl]
+      rw [hnext]
+      have hpa : ∀ q, (Op.trivia true t.text).pendingAfter q = isSingleLineComment t.text := fun _ => rfl
+      cases prev with
+      | none =>
+        -- first comment: no gap
+        simp only [walkInv] at hinv
+        have hi : interleave none (t :: rest) = t :: interleave (some l) rest := by
+          simp [interleave, gapOf, hl]
+        rw [hi]
+        simp only [trivOps, List.map, List.cons_append]
+        rw [hc, budgetOk_trivia]
+        refine ih ((Op.trivia true t.text).lineAfter cur p) ((Op.trivia true t.text).pendingAfter p)
+          (some l) _ tail ⟨?_, ?_⟩ hrest hslr
+        · simp only [Op.lineAfter, Op.fires, hnl]
+          rcases Bool.eq_false_or_eq_true (isSingleLineComment t.text) with hs | hs <;> cases p <;>
+            simp [hs] at hinv ⊢ <;> omega
+        · rw [hpa, hnl]; simp
+      | some lp =>
+        simp only [walkInv] at hinv
+        obtain ⟨hcur, hlo'⟩ := hinv
+        by_cases hg : l - lp = 0
+        · -- same line: the previous comment is not a line comment
+          have hp : p = false := by
+            cases p with
+            | false => rfl
+            | true => simp at hlo'; omega
+          subst hp
+          have hi : interleave (some lp) (t :: rest) = t :: interleave (some l) rest := by
+            simp [interleave, gapOf, hl, hg]
+          rw [hi]
+          simp only [trivOps, List.map, List.cons_append]
+          rw [hc, budgetOk_trivia]
+          refine ih ((Op.trivia true t.text).lineAfter cur false)
+            ((Op.trivia true t.text).pendingAfter false) (some l) _ tail ⟨?_, ?_⟩ hrest hslr
+          · simp only [Op.lineAfter, Op.fires, hnl]
+            simp at hlo'; simp; omega
+          · rw [hpa, hnl]; simp
+        · have hi : interleave (some lp) (t :: rest) =
+              gapTrivia (l - lp) :: t :: interleave (some l) rest := by
+            simp [interleave, gapOf, hl, hg]
+          rw [hi]
+          simp only [trivOps, List.map, List.cons_append, gapTrivia]
+          rw [budgetOk_trivia, hc, budgetOk_trivia]
+          have hp1 : (Op.trivia false (List.replicate (l - lp) 10)).pendingAfter p = false := by
+            have hcn : (List.replicate (l - lp) (10 : UInt8)).contains 10 = true := replicate_contains_nl hg
+            simp only [Op.pendingAfter, hcn]; simp
+          have hc1 : (Op.trivia false (List.replicate (l - lp) 10)).lineAfter cur p = cur + (l - lp) := by
+            simp [Op.lineAfter, Op.fires, cnl_replicate]
+          rw [hp1, hc1]
+          refine ih ((Op.trivia true t.text).lineAfter (cur + (l - lp)) false)
+            ((Op.trivia true t.text).pendingAfter false) (some l) _ tail ⟨?_, ?_⟩ hrest hslr
+          · simp only [Op.lineAfter, Op.fires, hnl]
+            simp; omega
+          · rw [hpa, hnl]; simp
+
+/-- Full-strength statement: the code after a removed statement keeps its line. `cs` are the
+comments the removed statement carried, as they sit in the source (`attached`), re-attached by
+`remove_statement` to a next token that has no leading trivia of its own; the writer reaches
+them at `current_line = cur` (+1 if a line comment is open) not past the first comment's line
+`lo`; the next content is recorded on line `n`, not before the end of the comment block. -/
+def removed_statement_keeps_line_full : Prop :=
+  ∀ (cs : List RTrivia) (cur lo : Nat) (p : Bool) (t : List UInt8) (n : Nat) (sc : Bool) (tail : List Op),
+    (if p then cur + 1 else cur) ≤ lo → attached lo cs = true → endOf lo cs ≤ n → t ≠ [] →
+    budgetOk cur p (trivOps (reattach cs []) ++ Op.token t (some n) sc :: tail) =
+      budgetOk (n + countNewLines t) false tail
+
+/-- False of the code as it is (finding F32): the gaps are computed from the STARTING lines of
+the comments, so the newlines inside a comment that spans several lines are counted twice.
+Witness: `--[[a⏎b]]` on line 1 followed by `-- c` on line 2, next statement on line 3. -/
+theorem removed_statement_keeps_line_full_false : ¬ removed_statement_keeps_line_full := by
+  intro h
+  have := h [⟨true, [45, 45, 91, 91, 97, 10, 98, 93, 93], some 1⟩, ⟨true, [45, 45, 32, 99], some 2⟩]
+    1 1 false [109] 3 true [] (by decide) (by decide) (by decide) (by decide)
+  exact absurd this (by decide)
+
+/-- Partial theorem: when every comment the removed statement carried fits on one line, the
+next statement's first content finds `current_line` at or before its recorded line, whatever
+the number of comments and the gaps between them; by `budget_lands` it (and, the budget of
+`tail` being evaluated from exactly `n + newlines`, everything after it) stays on its line. -/
+theorem removed_statement_keeps_line (cs : List RTrivia) (cur lo : Nat) (p : Bool) (t : List UInt8)
+    (n : Nat) (sc : Bool) (tail : List Op)
+    (hcur : (if p then cur + 1 else cur) ≤ lo) (hatt : attached lo cs = true)
+    (hsl : singleLine cs = true) (hend : endOf lo cs ≤ n) (ht : t ≠ []) :
+    budgetOk cur p (trivOps (reattach cs []) ++ Op.token t (some n) sc :: tail) =
+      budgetOk (n + countNewLines t) false tail := by
+  rw [reattach_inorder]
+  obtain ⟨cur', p', h1, h2⟩ := interleave_budget cs cur p none lo (Op.token t (some n) sc :: tail)
+    (by simpa [walkInv] using hcur) hatt hsl
+  rw [h1]
+  have hne : t.isEmpty = false := by cases t <;> simp_all
+  simp only [budgetOk, Op.budget, Op.lineAfter, Op.pendingAfter, hne, Bool.false_or, Bool.false_eq_true,
+    if_false]
+  have hle : (if p' = true then cur' + 1 else cur') ≤ n := Nat.le_trans h2 hend
+  have hd : decide ((if p' = true then cur' + 1 else cur') ≤ n) = true := by simpa using hle
+  rw [hd, Bool.true_and]
+  congr 1
+  omega
+
+example : attached 2 [⟨true, [45, 45, 100, 49], some 2⟩, ⟨true, [45, 45, 100, 50], some 3⟩,
+    ⟨true, [45, 45, 116], some 4⟩] = true ∧
+    singleLine [⟨true, [45, 45, 100, 49], some 2⟩, ⟨true, [45, 45, 100, 50], some 3⟩,
+    ⟨true, [45, 45, 116], some 4⟩] = true ∧
+    endOf 2 [⟨true, [45, 45, 100, 49], some 2⟩, ⟨true, [45, 45, 100, 50], some 3⟩,
+    ⟨true, [45, 45, 116], some 4⟩] ≤ 5 := by decide
+
 end DarkluaModel.C04
